@@ -18,7 +18,7 @@ import itertools
 
 from .interp import (Adt, BoxV, Cell, Inconclusive, Interp, ListV, Panic, Policy, Ptr, Tok, is_some, ordering,
                      ordering_to_int, show, some)
-from .report import path_sig
+from .report import coverage, path_sig
 
 BOUND = "range::Bound"
 PRED = "range::Predicate"
@@ -327,7 +327,7 @@ def eval_row(prog, env, op, a, b, w, variant, prefix=()):
     status, val = run.call(key, [pa, pb])
     it = run.interp
     out = {"op": op, "key": row_key(a, b, w), "variant": variant, "status": status, "sig": path_sig(it), "ctx": cx,
-           "cells": run.cells, "inv_lu": run.inv_lu, "steps": it.steps,
+           "cells": run.cells, "inv_lu": run.inv_lu, "steps": it.steps, "cov": coverage(it),
            "example": "%s  vs  %s" % (example_text(a), example_text(b)), "problems": []}
     sp = it.ret_span.get(key)
     out["ret"] = prog.span_str(sp) if sp else None
